@@ -1,5 +1,6 @@
 """Shared generator and metadata of the engine properties (C01, C02, C03, C04, C06, C17)."""
 import gramgen as G
+from gramgen import A, B
 
 SUBCMD = "eng"
 IMPORTS = ["FileSet", "Grammar", "Engine", "Spec", "EngineHarness", "EngineOracles"]
@@ -21,20 +22,48 @@ def flags_for(rules, root, named):
     return f
 
 
-def generate(rng, tier, enum_size=3, enum_len=3, n_random=150, named_share=0.3, maxlen=5):
+import re
+BODIES = re.compile(r"\(ON \d+\); \(OS \[([0-9; ]+)\]\)")
+SKIPPED = {"exponential_shape": 0}
+
+
+def exponential_shape(rules, root):
+    """nullable rule with two or more references reachable without consuming input: the number of
+    (curtailed) derivations grows exponentially with the remaining input; skipped and counted"""
+    tab = G.nullable_table(rules)
+    for k, r in enumerate(rules):
+        if tab[k] and sum(1 for e in G.walk(r) if e[0] == 'ref') >= 2:
+            return True
+    return False
+
+
+def generate(rng, tier, enum_size=5, enum_len=3, sample5=1500, n_random=1000, named_share=0.3, maxlen=5):
     out = []
     if tier != "quick":
-        enum_size, n_random = enum_size + 1, n_random * 12
+        enum_size, enum_len, sample5, n_random = 6, 4, 8000, n_random * 10
     for size in range(1, enum_size + 1):
         for rules, root in G.one_rule_grammars(size):
             if not G.repetition_ok(rules, root):
                 continue
+            if exponential_shape(rules, root):
+                SKIPPED["exponential_shape"] += 1
+                continue
             fl = flags_for(rules, root, False)
             for w in G.inputs_upto(enum_len):
                 out.append((G.case_text(rules, root, w, flags=fl), {"stream": "enumerated"}))
+    # a sample of the next size (the pinned defect D1 first shows at 6 nodes)
+    nxt = [g for g in G.one_rule_grammars(enum_size + 1) if not exponential_shape(*g)]
+    rng.shuffle(nxt)
+    for rules, root in nxt[:sample5]:
+        fl = flags_for(rules, root, False)
+        for w in ([A, B, B, B], [B, B], [A, A, B], G.rand_input(rng, 4)):
+            out.append((G.case_text(rules, root, w, flags=fl), {"stream": "enumerated-sample"}))
     for i in range(n_random):
         ops = G.MONO if i % 3 == 0 else G.FULL
         rules, root = G.rand_grammar(rng, ops)
+        if exponential_shape(rules, root):
+            SKIPPED["exponential_shape"] += 1
+            continue
         named = rng.random() < named_share
         if named:
             cnt = [0]
@@ -53,6 +82,9 @@ def distribution(cases, obs):
     for (c, m), o in zip(cases, obs):
         if '"Raw" [(OL [])' not in o:
             d["nonempty_result"] += 1
+        m = BODIES.search(o)
+        if m and any(int(x) >= 2 for x in m.group(1).split("; ")[2::3]):
+            d["with_curtailment_or_reentry"] += 1
         if '"Timeout"' in o or '"Crash"' in o:
             d["timeouts_or_crashes"] += 1
         if '(OT "Err"' in o:
@@ -60,9 +92,12 @@ def distribution(cases, obs):
         fl = int(c.rsplit(" ", 1)[1])
         d["plain_run_compared"] += fl & 1
         d["named_productive"] += (fl >> 1) & 1
+    d["skipped_exponential_shape"] = SKIPPED["exponential_shape"]
     return d
 
 
 def nontrivial(case, obs, meta):
     # a non-empty root result, or a failing sentence with at least one failed attempt
     return '"Raw" [(OL [])' not in obs or '(OT "Err"' in obs
+
+CROSSCHECK = {"quick": 40, "thorough": 400}
